@@ -27,6 +27,10 @@ What is recognised (everything else becomes `.unknown` / `false`, which no refer
 * `_run_user(self, function, /, *args, **kwargs)`: `d = defer.maybeDeferred(function, *args, **kwargs)` (positional AND keyword arguments
   passed on: `_run_cleanups` hands the keyword arguments of `addCleanup` through it; the form without `**kwargs` is `.unknown`), `d.addErrback(self._got_user_failure)`, `return extract_result(d)` (directly or
   through one local).
+* `_got_user_failure(self, failure, tb_label=...)` - the errback `_run_user` installs; looked up on `SynchronousDeferredRunTest` and, when it does
+  not define it, on its single base `_DeferredRunTest`: exactly `return self._got_user_exception((failure.type, failure.value,
+  failure.getTracebackObject()), tb_label=tb_label)` = EVERY failure is reported as the user's exception, whatever its class (seed C20-f let
+  failures of class DeferredNotFired through); any other statement is `.unknown`.
 Trusted: this recogniser (a bug here could make a changed source look unchanged) and that `TTV.DeferredSkel.*I` read these forms as
 Python does.
 """
@@ -354,6 +358,40 @@ def run_user(fn):
     return '[%s]' % ', '.join(steps)
 
 
+# ---------------------------------------------------------------- _got_user_failure
+def got_user_failure(tree):
+    cls = find(tree, 'SynchronousDeferredRunTest')
+    fn = None
+    for c in cls.body:
+        if isinstance(c, ast.FunctionDef) and c.name == '_got_user_failure':
+            fn = c
+    if fn is None:
+        if [ast.unparse(b) for b in cls.bases] != ['_DeferredRunTest']:
+            return '[.unknown]'
+        try:
+            fn = find(tree, '_DeferredRunTest._got_user_failure')
+        except ValueError:
+            return '[.unknown]'
+    ps = [a.arg for a in fn.args.posonlyargs + fn.args.args]
+    if len(ps) != 3 or fn.args.vararg or fn.args.kwarg or fn.args.kwonlyargs:
+        return '[.unknown]'
+    f, lab = ps[1], ps[2]
+    want = ast.unparse(ast.parse('return self._got_user_exception((%s.type, %s.value, %s.getTracebackObject()), tb_label=%s)' % (f, f, f, lab)).body[0])
+    body = body_of(fn)
+    # `exc_info = (…); return self._got_user_exception(exc_info, …)`: a local bound and used once in the very next statement is that expression
+    if len(body) == 2 and isinstance(body[0], ast.Assign) and len(body[0].targets) == 1 and isinstance(body[0].targets[0], ast.Name) \
+            and isinstance(body[1], ast.Return):
+        name, val = body[0].targets[0].id, body[0].value
+        uses = [n for n in ast.walk(body[1]) if isinstance(n, ast.Name) and n.id == name]
+        if len(uses) == 1 and name not in ps:
+            class Sub(ast.NodeTransformer):
+                def visit_Name(self, n):
+                    return val if n.id == name else n
+            body = [ast.fix_missing_locations(Sub().visit(body[1]))]
+    steps = ['.reportUserException' if ast.unparse(st) == want else '.unknown' for st in body]
+    return '[%s]' % ', '.join(steps)
+
+
 def generate(repo):
     base = os.path.join(repo, 'testtools', 'twistedsupport')
     d = ast.parse(open(os.path.join(base, '_deferred.py')).read())
@@ -362,7 +400,7 @@ def generate(repo):
     return '''import TTV.Model.DeferredSkel
 /-! GENERATED by harness/pydeferred2lean.py from testtools/twistedsupport/{_deferred,_matchers,_runtest}.py on every run - do not edit.
 The decision logic of `on_deferred_result`, of the three matchers' `match` with the handlers they pass, of `extract_result`
-and of `SynchronousDeferredRunTest._run_user`, as data. -/
+and of `SynchronousDeferredRunTest._run_user` with the errback `_got_user_failure` it installs, as data. -/
 namespace TTV.Generated.DeferredSrc
 open TTV.DeferredSkel
 
@@ -383,9 +421,11 @@ def extractResult : ExtractSrc :=
 
 def runUser : List RunUserStep := %s
 
+def gotUserFailure : List GotFailureStep := %s
+
 end TTV.Generated.DeferredSrc
 ''' % (on_deferred_result(find(d, 'on_deferred_result')), matcher(m, '_NoResult'), matcher(m, '_Succeeded'), matcher(m, '_Failed'),
-       extract_result(find(d, 'extract_result')), run_user(find(r, 'SynchronousDeferredRunTest._run_user')))
+       extract_result(find(d, 'extract_result')), run_user(find(r, 'SynchronousDeferredRunTest._run_user')), got_user_failure(r))
 
 
 if __name__ == '__main__':
